@@ -273,3 +273,110 @@ def o3(proj, rep, modules):
                 rep.ok('O3', fi.qual, 'not memoised: every call builds a fresh result', m, fi.node, text=f'{fi.qual} memo')
     rep.count('O3.public_functions', n)
     return n
+
+
+# ------------------------------------------------------------------------------------------------ PU1
+RULE_PU1 = ('PU1: the state-vector / density-matrix primitives never write into the caller\'s array: an item assignment or augmented assignment whose base '
+            'is a parameter, or a name that may alias a parameter (plain binding, reshape / view / ravel / asarray / astype(copy=False) / slicing), is '
+            'reported. A fresh object comes from .copy(), np.array(..), astype without copy=False, arithmetic, zeros_like.')
+
+_VIEW_METHODS = {'reshape', 'view', 'ravel', 'squeeze', 'transpose', 'swapaxes', 'real', 'imag', 'T'}
+_FRESH_CALLS = {'copy', 'array', 'zeros', 'zeros_like', 'ones', 'ones_like', 'empty', 'empty_like', 'eye', 'concatenate', 'stack', 'kron', 'einsum', 'dot', 'matmul',
+                'tensordot', 'clone'}
+
+
+def _may_alias(e, aliases):
+    """name of the parameter e may be a view of, or None"""
+    if isinstance(e, ast.Name):
+        return aliases.get(e.id)
+    if isinstance(e, ast.Subscript):
+        return _may_alias(e.value, aliases)
+    if isinstance(e, ast.Attribute) and e.attr in _VIEW_METHODS:
+        return _may_alias(e.value, aliases)
+    if isinstance(e, ast.Call):
+        f = e.func
+        if isinstance(f, ast.Attribute):
+            if f.attr in _VIEW_METHODS:
+                return _may_alias(f.value, aliases)
+            if f.attr == 'astype':
+                cp = next((k.value for k in e.keywords if k.arg == 'copy'), None)
+                if isinstance(cp, ast.Constant) and cp.value is False:
+                    return _may_alias(f.value, aliases)
+                return None
+            if f.attr in ('asarray', 'ascontiguousarray', 'atleast_1d', 'atleast_2d') and e.args:
+                return _may_alias(e.args[0], aliases)
+        return None
+    return None
+
+
+def pu1(proj, rep, modules):
+    rep.rule('PU1', RULE_PU1)
+    n = 0
+    for mq in modules:
+        m = proj.mod(mq)
+        rep.touch(m)
+        for fi in [f for f in proj.funcs.values() if f.module is m and f.cls is None]:
+            if fi.qual.rsplit('.', 1)[1].endswith('_'):
+                continue
+            params = [p for p in fi.all_params]
+            aliases = {p: p for p in params}
+            stores = 0
+            bad = None
+            for st in fi.node.body if True else []:
+                pass
+            # statement order walk (flow-insensitive over branches: a name is an alias if ANY binding may alias)
+            assigns = [s for s in ast.walk(fi.node) if isinstance(s, ast.Assign) and isinstance(s.targets[0], ast.Name)]
+            changed = True
+            fresh = set()
+            while changed:
+                changed = False
+                for s in assigns:
+                    nm = s.targets[0].id
+                    a = _may_alias(s.value, aliases)
+                    if a is not None and aliases.get(nm) != a and nm not in params:
+                        aliases[nm] = a
+                        changed = True
+            # a parameter that is re-bound to a fresh value at function level before any store is no longer the caller's array
+            rebound_fresh = {s.targets[0].id for s in fi.node.body if isinstance(s, ast.Assign) and isinstance(s.targets[0], ast.Name)
+                             and s.targets[0].id in params and _may_alias(s.value, {p: p for p in params}) is None}
+            p0 = {p: p for p in params}
+            for st0 in fi.node.body:
+                if isinstance(st0, ast.If) and st0.orelse:
+                    def fresh_in(block):
+                        return {x.targets[0].id for b in block for x in ast.walk(b) if isinstance(x, ast.Assign) and isinstance(x.targets[0], ast.Name)
+                                and x.targets[0].id in params and _may_alias(x.value, p0) is None}
+                    rebound_fresh |= fresh_in(st0.body) & fresh_in(st0.orelse)
+            for s in ast.walk(fi.node):
+                tgt = None
+                if isinstance(s, ast.Assign) and isinstance(s.targets[0], ast.Subscript):
+                    tgt = s.targets[0]
+                elif isinstance(s, ast.AugAssign) and not isinstance(s.target, ast.Name):
+                    tgt = s.target          # `x op= v` on a bare name re-binds for Python scalars: ambiguous, not reported here
+                if tgt is None:
+                    continue
+                if isinstance(tgt, ast.Name) and tgt.id not in aliases:
+                    continue
+                base = tgt
+                while isinstance(base, (ast.Subscript,)):
+                    base = base.value
+                a = _may_alias(base if not isinstance(tgt, ast.Name) else tgt, aliases)
+                stores += 1
+                if a is not None and a not in rebound_fresh and bad is None:
+                    # all bindings of the local name alias? (a name that is bound to a fresh copy on every path is fine)
+                    nm = base.id if isinstance(base, ast.Name) else None
+                    if nm is not None and nm not in params:
+                        bind = [x for x in assigns if x.targets[0].id == nm]
+                        if any(_may_alias(x.value, aliases) is None for x in bind):
+                            continue
+                    bad = (s, a)
+            if stores == 0:
+                continue
+            n += 1
+            if bad:
+                s, a = bad
+                rep.violation('PU1', fi.qual, f'`{ast.unparse(s)[:80]}` writes through an object that may be (a view of) the parameter `{a}`: the caller\'s array is '
+                              f'modified in place (a second use of the same input sees the overwritten data)', m, s)
+            else:
+                rep.ok('PU1', fi.qual, f'{stores} in-place store(s), all into locally created arrays', m, fi.node, text=f'{fi.qual} purity')
+    rep.count('PU1.functions_with_stores', n)
+    return n
